@@ -125,8 +125,13 @@ theorem py_ignored_reaction_survives (g12 : Py.FloatLit → String) (strL : List
     | nil => rfl
     | cons x l ih => simp only [List.map_cons, Py.treeStrs, ih]; rfl
   subst hun
-  rcases hty with rfl | ⟨t, rfl, ht⟩ <;> rcases hra with rfl | ⟨e, rfl⟩ <;>
-    simp [py_read_reaction, Py.idx, Py.treeIdx, Py.treeNeNil, Py.treeLen, Py.treeFloat, Py.treeJoin, Py.inStrSet, Py.unwrap, toks, ht]
+  rcases hty with rfl | ⟨t, rfl, ht⟩
+  · rcases hra with rfl | ⟨e, rfl⟩ <;>
+      (simp [py_read_reaction, Py.idx, Py.treeIdx, Py.treeNeNil, Py.treeLen, Py.treeFloat, Py.treeJoin, Py.inStrSet, Py.unwrap, toks]) <;>
+      try rfl
+  · rcases hra with rfl | ⟨e, rfl⟩ <;>
+      (simp [py_read_reaction, Py.idx, Py.treeIdx, Py.treeNeNil, Py.treeLen, Py.treeFloat, Py.treeJoin, Py.inStrSet, Py.unwrap, toks, ht]) <;>
+      try rfl
 
 /-- a reaction line without info box (`reaction A + B -> C`): no rate - six `None`s, no exception -/
 theorem py_no_info_box_six_nones (RTYPES : Py.StrSet) (g12 : Py.FloatLit → String) (strL : List Tree → String) (kw : Tree)
@@ -137,6 +142,7 @@ theorem py_no_info_box_six_nones (RTYPES : Py.StrSet) (g12 : Py.FloatLit → Str
     | nil => rfl
     | cons x l ih => simp only [List.map_cons, Py.treeStrs, ih]; rfl
   simp [py_read_reaction, Py.idx, Py.treeNeNil, Py.treeJoin, toks]
+  rfl
 
 /-! ### `set_io_objects` / `clear_io_objects` (C15: the reader honours the configured classes) -/
 
